@@ -469,7 +469,7 @@ var kinds = []string{"sel", "sfu", "dml", "insfrom", "commit", "rollback", "b", 
 
 // how a wrapped read reaches its single table: FROM-subquery, common table expression, temporary view declared from
 // the table, aggregate over the table, user-defined function that reads the table, self join of two spellings
-var wrapForms = []string{"subq", "cte", "tview", "agg", "udf", "self"}
+var wrapForms = []string{"subq", "cte", "tview", "agg", "udf", "self", "cursor", "prep", "exec", "var", "exists"}
 
 var formatsAll = []string{"", "tsv", "ltsv", "json", "jsonl"}
 
@@ -872,7 +872,7 @@ func genHist(t *rapid.T, opt genOpt) histCase {
 			m.C[s.T].dirty = true
 		case "wsel":
 			s.K = "wsel"
-			s.W = wrapForms[fw.Weighted(t, "wrap", []int{20, 15, 15, 15, 15, 20})]
+			s.W = wrapForms[fw.Weighted(t, "wrap", []int{14, 10, 10, 10, 10, 14, 8, 6, 6, 6, 6})]
 			s.Form = fw.Uniform(t, "form", 3)
 			s.FU = s.W == "self" && fw.Pct(t, "wsel_for_update", 40)
 			if s.FU {
@@ -1799,6 +1799,18 @@ func checkHistLimit(c histCase, procLimit time.Duration) (fw.Outcome, *fw.Violat
 					stmt += " FOR UPDATE"
 				}
 				stmt += ";"
+			case "cursor":
+				// the table is read when the cursor is opened; the records are fetched into a temporary table
+				stmt = fmt.Sprintf("DECLARE cu%d CURSOR FOR SELECT id, v FROM %s; DECLARE cv%d VIEW (id, v); VAR @ci%d, @cw%d; OPEN cu%d; WHILE @ci%d, @cw%d IN cu%d DO INSERT INTO cv%d VALUES (@ci%d, @cw%d); END WHILE; CLOSE cu%d; SELECT id, v FROM cv%d;", i, ref, i, i, i, i, i, i, i, i, i, i, i, i)
+			case "prep":
+				stmt = fmt.Sprintf("PREPARE ps%d FROM 'SELECT id, v FROM %s WHERE id > ?'; EXECUTE ps%d USING -1;", i, ref, i)
+			case "exec":
+				stmt = "EXECUTE 'SELECT id, v FROM " + ref + ";';"
+			case "var":
+				stmt = fmt.Sprintf("VAR @wv%d := (SELECT %s FROM %s); SELECT @wv%d AS r;", i, agg, ref, i)
+			case "exists":
+				// a correlated subquery over another spelling of the same table, evaluated per record
+				stmt = "SELECT a.id, a.v FROM " + ref + " a WHERE EXISTS (SELECT 1 FROM " + ref2 + " b WHERE b.id = a.id);"
 			default:
 				o.Discard = true
 				return o, nil
@@ -1831,7 +1843,7 @@ func checkHistLimit(c histCase, procLimit time.Duration) (fw.Outcome, *fw.Violat
 				for _, x := range rows {
 					want = append(want, key(x.id, cellKey(x)))
 				}
-				ordered = s.W != "agg" && s.W != "udf"
+				ordered = s.W != "agg" && s.W != "udf" && s.W != "var"
 			}
 			res := execA(stmt)
 			if res.Err != nil {
@@ -1841,7 +1853,7 @@ func checkHistLimit(c histCase, procLimit time.Duration) (fw.Outcome, *fw.Violat
 				return o, fw.V("a_read_shape", "%s returned %d results%s", stmt, len(res.Views), tail())
 			}
 			var got []string
-			if s.W == "agg" || s.W == "udf" {
+			if s.W == "agg" || s.W == "udf" || s.W == "var" {
 				vw := res.Views[0]
 				if len(vw.Rows) != 1 || len(vw.Rows[0]) != 1 {
 					return o, fw.V("a_read_shape", "%s returned an unexpected shape: %s%s", stmt, vw.String(), tail())
@@ -1889,7 +1901,7 @@ func checkHistLimit(c histCase, procLimit time.Duration) (fw.Outcome, *fw.Violat
 			}
 			prevSet[s.T], bUnloaded[s.T] = false, false
 			noteRead(s.T)
-			tok("w" + s.W[:2] + rule + tn)
+			tok("w" + s.W[:3] + rule + tn)
 
 		case "repl":
 			rule := m.updAccess(s.T)
@@ -2320,7 +2332,7 @@ func TestC20FailedUpdateAccess(t *testing.T) {
 	})
 }
 
-const formsRule = "the same histories and model with (a) further statement forms of transaction A: single-table reads that reach the table through a FROM-subquery, a common table expression, DECLARE .. VIEW AS SELECT, an aggregate (LISTAGG over all rows), a user-defined function whose body reads the table, a self join of two spellings of the table (also FOR UPDATE); REPLACE .. USING (id); INSERT .. SELECT from the target table itself; UPDATE / DELETE .. WHERE id [NOT] IN (SELECT id FROM the other table) (the target is held for update, the subquery's table is a plain read); (b) the tables as CSV, TSV, LTSV, JSON or JSON Lines files (spelled as name / file name / absolute path / aliased / CSV(), LTSV(), JSON(), JSONL() table functions); (c) in a tenth of the cases 165-400 further rows per table and @@CPU 2-4 for A, so that loading, copying out of the cache and the DML statements run on several goroutines. Wrapped reads are compared as a sequence (subquery, CTE, view), as a multiset (aggregate, function, join). Non-trivial and distinct as in history"
+const formsRule = "the same histories and model with (a) further statement forms of transaction A: single-table reads that reach the table through a FROM-subquery, a common table expression, DECLARE .. VIEW AS SELECT, an aggregate (LISTAGG over all rows), a user-defined function whose body reads the table, a self join of two spellings of the table (also FOR UPDATE), a cursor (DECLARE .. CURSOR, OPEN, WHILE .. IN cursor fetching every record into a temporary table), a prepared statement (PREPARE .. FROM, EXECUTE .. USING), EXECUTE of a statement text, a scalar subquery assigned to a variable, a correlated EXISTS subquery over another spelling of the same table (evaluated per record, on several goroutines for the big tables); REPLACE .. USING (id); INSERT .. SELECT from the target table itself; UPDATE / DELETE .. WHERE id [NOT] IN (SELECT id FROM the other table) (the target is held for update, the subquery's table is a plain read); (b) the tables as CSV, TSV, LTSV, JSON or JSON Lines files (spelled as name / file name / absolute path / aliased / CSV(), LTSV(), JSON(), JSONL() table functions); (c) in a tenth of the cases 165-400 further rows per table and @@CPU 2-4 for A, so that loading, copying out of the cache and the DML statements run on several goroutines. Wrapped reads are compared as a sequence (subquery, CTE, view), as a multiset (aggregate, function, join). Non-trivial and distinct as in history"
 
 var formsAssumptions = append(append([]string{}, assumptions...),
 	"tables of the formats without a header line (LTSV, JSON, JSON Lines) never become empty: an empty file has no columns there; DELETEs that would remove the last record are generated as UPDATEs (replayed cases that do it are discarded)",
